@@ -118,8 +118,13 @@ def run(ctx):
         if not b.file.endswith(("unix.rs", "terminal.rs", "common.rs", "render.rs", "encoder.rs", "image.rs")):
             continue
         for bb, t in b.calls():
-            if call_matches(t, r"^rustix::io::(write|pwrite|writev)") or call_matches(t, r"^<std::fs::File as std::io::Write>::write") or call_matches(t, r"^<unix::Tty as std::io::Write>::"):
-                raw_writers.setdefault(b.path, []).append((callee_name(t), "%s:%d" % (b.file, t["line"])))
+            g = (t["fn"].get("resolved_generics") or t["fn"].get("generics") or [""])
+            tty_generic = call_matches(t, r"^std::io::Write::") and any(re.search(r"(^|[ &])unix::Tty$", x) for x in g[:1])
+            if call_matches(t, r"^rustix::io::(write|pwrite|writev)") or call_matches(t, r"^<std::fs::File as std::io::Write>::write") or call_matches(t, r"^<unix::Tty as std::io::Write>::") or tty_generic:
+                nm = callee_name(t)
+                if tty_generic:
+                    nm = "<unix::Tty as std::io::Write>::write (via %s)" % nm
+                raw_writers.setdefault(b.path, []).append((nm, "%s:%d" % (b.file, t["line"])))
     allowed_raw = {
         "<unix::Tty as std::io::Write>::write": "the tty write primitive itself",
         "unix::UnixTerminal::new_from_fd::{closure#0}": "waker: writes one byte to the self-pipe, not the tty (checked by C17)",
